@@ -5,6 +5,7 @@ import (
 	"go/ast"
 	"go/token"
 	"go/types"
+	"os"
 	"regexp"
 	"strings"
 
@@ -158,6 +159,26 @@ func condSub(stmt string) (string, bool) {
 	return cmp, cmp == sub
 }
 
+// isCondSubBody: the canonical body of a function (a, q) that returns a - q when a >= q and a otherwise, in its
+// spellings (either arm first, comparison mirrored, else-arm or fall-through).
+func isCondSubBody(cb []string) bool {
+	txt := strings.Join(cb, " ")
+	txt = strings.ReplaceAll(txt, "$p1 <= $p0", "$p0 >= $p1")
+	txt = strings.ReplaceAll(txt, "$p1 > $p0", "$p0 < $p1")
+	txt = strings.ReplaceAll(txt, " ELSE {", "")
+	txt = strings.ReplaceAll(txt, "RETURN; ", "")
+	txt = strings.ReplaceAll(txt, "RETURN;", "")
+	txt = strings.Join(strings.Fields(strings.NewReplacer("{", " ", "}", " ", ";", " ").Replace(txt)), " ")
+	switch txt {
+	case "IF ($p0 >= $p1) $r = ($p0 - $p1) $r = $p0", "IF ($p0 < $p1) $r = $p0 $r = ($p0 - $p1)":
+		return true
+	}
+	if os.Getenv("LV_DEBUG_TWIN") != "" {
+		fmt.Fprintf(os.Stderr, "TWIN: conditional subtraction body not recognised: %q\n", txt)
+	}
+	return false
+}
+
 func scanTwin(c *core.Ctx) []ob {
 	var out []ob
 	pk := c.Pkg("ring")
@@ -220,7 +241,7 @@ func scanTwin(c *core.Ctx) []ob {
 			case len(sb) == 1 && qIdx >= 0 && sb[0] == fmt.Sprintf("$r = CRed(%s, $p%d)", call, qIdx):
 				if cr := decls["CRed"]; cr != nil {
 					cb, _ := canonBody(info, cr)
-					if len(cb) == 2 && cb[0] == "IF ($p0 >= $p1) { $r = ($p0 - $p1); RETURN; }" && cb[1] == "$r = $p0" {
+					if isCondSubBody(cb) {
 						deleg = true
 					}
 				}
